@@ -30,6 +30,7 @@ func (P) ID() string { return "C14" }
 //           a<id>@<n>  BlockChain.IsDeploymentActive(id) with tip n                 -> 0/1  | err
 //           d<id>@<n>  deploymentState(n, id) (what validate.go consults)          -> 0..4 | err
 //           v@<n>      BlockChain.CalcNextBlockVersion() with tip n                 -> hex uint32
+//           V@<n>      calcNextBlockVersion(n) (no tip change)                      -> hex uint32
 //           c<id>      cache soundness of deployment id: "ok" iff every cached entry equals the answer of
 //                      a fresh instance for that node (only emitted on histories inside the hypotheses)
 //           w<bit>@<n> thresholdState with the unknown-rules bit checker            -> 0..4
@@ -275,6 +276,13 @@ func execQ(f []string) string {
 		case 'v':
 			c.SetTip(int(node))
 			v, err := c.Chain().CalcNextBlockVersion()
+			if err != nil {
+				out = append(out, "err")
+			} else {
+				out = append(out, fmt.Sprintf("%x", uint32(v)))
+			}
+		case 'V':
+			v, err := c.NextBlockVersionAt(int(node))
 			if err != nil {
 				out = append(out, "err")
 			} else {
